@@ -234,7 +234,8 @@ pub fn install_panic_hook() {
 
 /// Run `f`, converting a panic into `Err((location, message))`.
 pub fn guarded<T>(f: impl FnOnce() -> T) -> Result<T, (String, String)> {
-    let prev = QUIET.with(|q| std::mem::replace(&mut *q.borrow_mut(), true));
+    let verbose = std::env::var_os("VERIF_PANIC_VERBOSE").is_some();
+    let prev = QUIET.with(|q| std::mem::replace(&mut *q.borrow_mut(), !verbose));
     LAST_PANIC.with(|p| *p.borrow_mut() = None);
     let r = catch_unwind(AssertUnwindSafe(f));
     QUIET.with(|q| *q.borrow_mut() = prev);
